@@ -364,6 +364,17 @@ def deletion_pass(ctx, tag='C07'):
                 continue
             if target is None or not hasattr(target, 'delete'):
                 continue
+            if not f.many and rng.random() < .4:
+                # the slot that held the target through the proxy is given the target itself (and, sometimes, the proxy
+                # back): the same object behind two wrappers — whoever holds it must still let go of it
+                try:
+                    o.eSet(f, target)
+                    how += '+instance-assigned'
+                    if rng.random() < .4:
+                        o.eSet(f, p)
+                        how += '+proxy-again'
+                except Exception:
+                    pass
             ctx.evaluations += 1
             ctx.count('cross-delete/' + how)
             ctx.nontriv(('cross-delete', h))
